@@ -90,8 +90,6 @@ __CPROVER_ensures(this->crypt._base._wv_tag == WV_TAG_decryaes)
 __CPROVER_ensures(WV_KEY16_EQ(this->_base.iv, iv) && WV_KEY16_EQ(this->_base.initiv, iv));
 
 /* factory: the class for (direction, mode number), built from the factory's key and IV pointers; NULL for unknown modes */
-#define WV_TAG_FOR(isenc, type) ((type) == 0 ? ((isenc) ? WV_TAG_AesECB_Enc : WV_TAG_AesECB_Dec) : (type) == 1 ? ((isenc) ? WV_TAG_AesCBC_Enc : WV_TAG_AesCBC_Dec) : \
-  (type) == 2 ? WV_TAG_AesCTR : (type) == 3 ? ((isenc) ? WV_TAG_AesCFB_Enc : WV_TAG_AesCFB_Dec) : WV_TAG_AesOFB)
 /* callers that do not look at the key schedule compile with WV_FACTORY_LIGHT: the same contract without the (large) schedule
    invariant in its postcondition -- a weaker assumption, proved in its strong form by the mode_factory obligation */
 #ifdef WV_FACTORY_LIGHT
